@@ -125,6 +125,21 @@ def _staggered(job):
         return orig(self, fp, files, path, src_start, src_end, q, exc_q, skip_notarget)
 
     impl.Worker.extract_single = wrapped
+    result = None
+    try:
+        # a lost error can depend on a race below the granularity the harness controls (e.g. a queue's feeder
+        # thread): damaged runs are repeated and the first run that loses the error is the one reported
+        for _ in range(job.get("reps", 1)):
+            result = _staggered_once(job)
+            if job.get("damaged_any") and " raise=-" in result["line"]:
+                break
+    finally:
+        impl.Worker.extract_single = orig
+    return result
+
+
+def _staggered_once(job):
+    import py7zr
     raised = None
     dest = tempfile.mkdtemp(dir=job["cwd"])
     fac = py7zr.io.BytesIOFactory(1 << 24) if job["output"] == "factory" else None
@@ -136,8 +151,6 @@ def _staggered(job):
                 z.extractall(dest)
     except Exception as e:  # noqa
         raised = _attribute(e, job["folders"], None)
-    finally:
-        impl.Worker.extract_single = orig
     prods = {}
     if fac is not None:
         for n, p in fac.products.items():
@@ -321,9 +334,8 @@ def run(ctx):
                     for perm in perms:
                         ranks = {fi: r for r, fi in enumerate(perm)}
                         for mp, output in ((False, "dir"), (True, "dir"), (True, "factory")):
-                            if output == "factory" and vlabel != "intact" and rng.random() < 0.5:
-                                continue
-                            gjobs.append({"path": vpath, "folders": folders, "ranks": ranks, "mp": mp, "output": output, "cwd": tmp, "extra": extra, "damaged": dnames})
+                            gjobs.append({"path": vpath, "folders": folders, "ranks": ranks, "mp": mp, "output": output, "cwd": tmp, "extra": extra, "damaged": dnames,
+                                          "damaged_any": bool(damage), "reps": (6 if damage and mp else 1)})
                             gmeta.append((shape, cs, vlabel, damage, perm, mp, output))
             # concurrent independent objects on the intact archive
             for n in ((2, 3) if ctx.thorough else (2,)):
